@@ -265,11 +265,10 @@ static var Range_Iter_Init(var self) {
 static var Range_Iter_Last(var self) {
   struct Range* r = self;
   struct Int* i = r->value;
-  if (r->step == 0) { return Terminal; }
-  if (r->step  > 0) { i->val = r->stop-1; }
-  if (r->step  < 0) { i->val = r->start; }
-  if (r->step  > 0 and i->val < r->start) { return Terminal; }
-  if (r->step  < 0 and i->val >= r->stop) { return Terminal; }
+  if (r->step == 0 or r->stop <= r->start) { return Terminal; }
+  int64_t span = (r->stop-1) - r->start;
+  if (r->step  > 0) { i->val = r->start    + (span /  r->step) *  r->step; }
+  if (r->step  < 0) { i->val = (r->stop-1) - (span / -r->step) * -r->step; }
   return i;
 }
 
